@@ -102,4 +102,30 @@ def bound {α : Type} (x : Option α) : Except Py.Exc α :=
   | some v => .ok v
   | none => .error .UnboundLocal
 
+/-! ### additions for tools/translate/pytr/objfn.py (builder trc) — additive block -/
+
+/-- a value that is an int or the constant `...` (Ellipsis) -/
+inductive EllInt where
+  | ellipsis
+  | int (n : Int)
+  deriving DecidableEq, Repr, Inhabited
+
+/-- the int in an ordering comparison `x > n` where `x` may be None: `TypeError` for None -/
+def intOfOpt (x : Option Int) : Except Py.Exc Int :=
+  match x with
+  | some n => .ok n
+  | none => .error .TypeError
+
+/-- `try: body  except C1: h1  except C2: h2  [else: …]` followed by the rest of the block, when every handler ends in `raise` /
+    `continue` / `return` (so the handlers are in tail position): the first clause whose class matches handles the exception -/
+def tryElse {α β ε : Type} (body : Except ε α) (handlers : List ((ε → Bool) × Except ε β)) (rest : α → Except ε β) : Except ε β :=
+  match body with
+  | .ok v => rest v
+  | .error e =>
+    match handlers.find? (fun h => h.1 e) with
+    | some h => h.2
+    | none => .error e
+
+/-! ### end of the additions for pytr/objfn.py -/
+
 end I18n.PyKit
